@@ -1,6 +1,6 @@
 """C10 - section_engine.evaluate_variables: the variables of a views file (global, and local to a view) are evaluated one after the other, each with
 the variables before it in scope, and each is stored under the name the evaluator LOOKS UP - names are case-insensitive in the language and
-ExpressionEvaluator._eval_Name reads `node.id.lower()` - with its own value (None when its expression cannot be evaluated); the variables handed in
+ExpressionEvaluator._eval_Name reads `node.id.lower()` - with its own value; a variable whose expression cannot be evaluated is left UNDEFINED (so that a filter using it cannot be evaluated either); the variables handed in
 (`existing_vars`: the globals, for a view's locals) stay visible and are not modified."""
 import ast
 
@@ -72,8 +72,12 @@ def h_evaluate_variables(ctx):
             dom0, arr0 = flags['before']
             key = lower(flags['name'])
             stored = z3.Select(res.fields[None], key)
-            what = stored == flags['value'] if 'value' in flags else IsNone(stored)
-            out['variable_is_stored_under_the_name_the_evaluator_looks_up'] = z3.And(res.dom == z3.SetAdd(dom0, key), what)
+            if 'value' in flags:
+                out['variable_is_stored_under_the_name_the_evaluator_looks_up'] = z3.And(res.dom == z3.SetAdd(dom0, key), stored == flags['value'])
+            else:
+                # "a filter that cannot be evaluated excludes the merchant": a variable whose expression cannot be evaluated is UNDEFINED afterwards (not None,
+                # which would read as false and make `not v` true; not a global of the same name either), so that every filter that uses it is unevaluable
+                out['a_variable_that_cannot_be_evaluated_is_left_undefined'] = res.dom == z3.SetDel(dom0, key)
             other = ctx.fresh('any_other_name', StrS)
             out['no_other_variable_changes'] = z3.Implies(other != key, z3.Select(res.fields[None], other) == z3.Select(arr0, other))
         return out
